@@ -1151,3 +1151,82 @@ def run_per_element_total(prog, tier, repo):
                 res.ok(key, b.loc(t[7]), 'walks the whole collection (' + ' <- '.join(chain or ['direct']) + ')')
     res.floor('loops performing a per-element heap obligation', n, 2)
     return [res]
+
+
+# ---------------------------------------------------------------------------------------------------------------------
+# MODREF-PARTS-PERMANENT (C17): a string that is part of a module reference is never reclaimed. Module references are never
+# collected, so every part has to be made permanent before the reference enters the module-reference table. Rule: every push
+# onto that table is preceded - in the pushing function, or else in every function that calls it - by the loop that promotes
+# the parts (the loop calling the function that rewrites a slot to `Permanent`).
+
+def run_modref_parts_permanent(prog, tier, repo):
+    res = RuleResult('MODREF-PARTS-PERMANENT', 'C17: the parts of a module reference are promoted to permanent strings before the reference '
+                     'enters the module-reference table, on every way into that table')
+    heap = [a for a in prog.adts.values() if a.name == 'samlang_heap::Heap']
+    if len(heap) != 1:
+        res.cannot_decide('samlang_heap::Heap')
+        return [res]
+    tbl = [f.name for f in heap[0].variants[0].fields if f.ty.s.startswith('std::vec::Vec<&') and 'PStr]' in f.ty.s]
+    if len(tbl) != 1:
+        res.cannot_decide(f'the module-reference table of the heap (found {tbl})')
+        return [res]
+    tbl = tbl[0]
+    bodies = [b for b in prog.bodies.values() if b.crate == 'samlang_heap' and '::tests' not in b.name]
+    # the promoting function: takes a handle and writes a `Permanent` slot
+    promoters = set()
+    for b in bodies:
+        if b.kind == 'closure':
+            continue
+        if any(st[0] == 'a' and st[2][0] == 'agg' and st[2][1][0] == 'adt' and str(st[2][1][3]) == 'Permanent'
+               for bl in b.blocks if not bl.cleanup for st in bl.stmts) and \
+                any('PStr' in strip_refs(b.locals[i]).s for i in range(1, b.nargs + 1)) and b.locals[0].s == '()':
+            promoters.add(b.id)
+    if not promoters:
+        res.cannot_decide('the function that makes a string permanent')
+        return [res]
+
+    def promoted_before(b, target_bb):
+        cfg = cfg_of(b)
+        for bi, bl in enumerate(b.blocks):
+            t = bl.term
+            if bl.cleanup or t[0] != 'call' or callee(t)[0] not in promoters:
+                continue
+            loop = {x for x in cfg.reachable(bi) if bi in cfg.reachable(x)} or {bi}
+            if any(cfg.nodes_dominate([x], target_bb) for x in loop):
+                return True
+        return False
+    pushers = {}
+    for b in bodies:
+        for bi, bl in enumerate(b.blocks):
+            t = bl.term
+            if bl.cleanup or t[0] != 'call' or (callee(t)[1] or '').split('::')[-1] != 'push' or not t[3]:
+                continue
+            fns = field_names(operand_root(b, t[3][0])[1])
+            if fns and fns[-1] == tbl:
+                pushers.setdefault(b.id, []).append(bi)
+    n = 0
+    for fid, blocks in sorted(pushers.items()):
+        f = prog.bodies[fid]
+        for bi in blocks:
+            n += 1
+            key = f'push:{f.name}'
+            if promoted_before(f, bi):
+                res.ok(key, f.loc(f.blocks[bi].term[7]), 'the parts are promoted in the pushing function before the push')
+                continue
+            callers = []
+            for c in bodies:
+                for bj, bl in enumerate(c.blocks):
+                    if not bl.cleanup and bl.term[0] == 'call' and callee(bl.term)[0] == fid:
+                        callers.append((c, bj))
+            bad = [(c, bj) for c, bj in callers if not promoted_before(c, bj)]
+            if not callers or bad:
+                where = bad[0][0].loc(bad[0][0].blocks[bad[0][1]].term[7]) if bad else f.loc()
+                who = bad[0][0].name if bad else f.name
+                res.violation(key, where, f'{who} puts a module reference into the module-reference table without first promoting its parts '
+                              f'to permanent strings: a part that is still a temporary string (e.g. a class of the same name was seen '
+                              f'first) is reclaimed by a later sweep although the module reference keeps referring to it')
+            else:
+                res.ok(key, f.loc(f.blocks[bi].term[7]), f'every caller ({", ".join(sorted({c.name.split("::")[-1] for c, _ in callers}))}) '
+                       f'promotes the parts before the call')
+    res.floor('pushes onto the module-reference table', n, 1)
+    return [res]
